@@ -45,7 +45,8 @@ func genC14(rt *rapid.T, c *Ctx) C14Case {
 	return k
 }
 
-var reSetVar = regexp.MustCompile(`(?m)^var (\w+) = kessoku\.Set\(`)
+// a migrated set: var X = kessoku.Set(...  or, for a set that merely names another one, var X = Y
+var reSetVar = regexp.MustCompile(`(?m)^var (\w+) = (?:kessoku\.Set\(|\w+$)`)
 
 func checkC14(c *Ctx, k C14Case) *Verdict {
 	v := &Verdict{Features: wireFeatures(k.W)}
